@@ -86,7 +86,7 @@ func (e *kvElection) runWatch(ctx context.Context, watcher Watcher, checkTicker 
 			if !ok {
 				return true
 			}
-			e.handleWatchEvent(entry)
+			e.handleWatchEvent(ctx, entry)
 		case <-checkTicker.C:
 			// Periodic check: if we're a follower and key doesn't exist, trigger re-election
 			// This handles cases where NATS watchers don't send deletion events
@@ -177,15 +177,21 @@ func (e *kvElection) observeLeader(id string, rev uint64) {
 
 // handleWatchEvent processes watch events and triggers re-election when the key is deleted
 // or becomes empty. It also updates the leader ID when a new leader is detected.
-func (e *kvElection) handleWatchEvent(entry Entry) {
+//
+// ctx is the context of the run the watch loop belongs to. A loop that is still
+// winding down after its run was stopped (and perhaps after a later run has
+// been started and stopped as well) acts on that context only: whatever it
+// still sets in motion ends at once, and it never sees the election context
+// that StopWithContext has cleared meanwhile.
+func (e *kvElection) handleWatchEvent(ctx context.Context, entry Entry) {
 	if entry == nil {
 		log := e.getLogger()
 		log.Debug("watch_event_key_deleted",
-			append(e.logWithContext(e.electionCtx()),
+			append(e.logWithContext(ctx),
 				zap.String("key", e.key),
 			)...,
 		)
-		go e.attemptAcquireWithRetry(e.electionCtx())
+		go e.attemptAcquireWithRetry(ctx)
 		return
 	}
 
@@ -193,11 +199,11 @@ func (e *kvElection) handleWatchEvent(entry Entry) {
 	if len(valueBytes) == 0 {
 		log := e.getLogger()
 		log.Debug("watch_event_key_empty",
-			append(e.logWithContext(e.electionCtx()),
+			append(e.logWithContext(ctx),
 				zap.String("key", e.key),
 			)...,
 		)
-		go e.attemptAcquireWithRetry(e.electionCtx())
+		go e.attemptAcquireWithRetry(ctx)
 		return
 	}
 
@@ -217,7 +223,7 @@ func (e *kvElection) handleWatchEvent(entry Entry) {
 		if newLeaderID != e.cfg.InstanceID && entry.Revision() > e.revision.Load() {
 			log := e.getLogger()
 			log.Warn("leadership_lost_via_watcher",
-				append(e.logWithContext(e.electionCtx()),
+				append(e.logWithContext(ctx),
 					zap.String("new_leader_id", newLeaderID),
 					zap.Uint64("revision", entry.Revision()),
 				)...,
@@ -242,7 +248,7 @@ func (e *kvElection) handleWatchEvent(entry Entry) {
 	if currentLeaderID != newLeaderID {
 		log := e.getLogger()
 		log.Info("leader_changed",
-			append(e.logWithContext(e.electionCtx()),
+			append(e.logWithContext(ctx),
 				zap.String("old_leader_id", currentLeaderID),
 				zap.String("new_leader_id", newLeaderID),
 				zap.Uint64("revision", entry.Revision()),
@@ -257,7 +263,7 @@ func (e *kvElection) handleWatchEvent(entry Entry) {
 	if e.cfg.AllowPriorityTakeover && e.cfg.Priority > payload.Priority {
 		log := e.getLogger()
 		log.Info("priority_takeover_opportunity",
-			append(e.logWithContext(e.electionCtx()),
+			append(e.logWithContext(ctx),
 				zap.String("current_leader", currentLeaderID),
 				zap.Int("current_priority", payload.Priority),
 				zap.Int("our_priority", e.cfg.Priority),
@@ -272,7 +278,7 @@ func (e *kvElection) handleWatchEvent(entry Entry) {
 			if err := e.attemptAcquire(); err != nil {
 				// Takeover failed - stay as follower
 				log.Debug("priority_takeover_failed",
-					append(e.logWithContext(e.electionCtx()),
+					append(e.logWithContext(ctx),
 						zap.Error(err),
 					)...,
 				)
